@@ -19,7 +19,7 @@ RULE = ('one generated spec is built (1) as a hand-written spied chart, (2) with
         'its own design (reference model) - whatever one chart registers belongs to that chart only. '
         'distinct_nontrivial = distinct (build, states, transitions, declines) tuples')
 CASES = {'quick': 2500, 'thorough': 100000}
-BUDGET = {'quick': 50, 'thorough': 300}
+BUDGET = {'quick': 150, 'thorough': 300}
 REQUIRE = {'template_builds': 1000, 'to_code_builds': 1000, 'factory_builds': 50, 'steps_compared': 20000, 'declines': 200,
            'decoy_charts_alive_with_shared_state_names': 500}
 ASSUME = ['signal and state names are Python identifiers (to_code emits signals.NAME and def NAME)']
